@@ -13,7 +13,7 @@ CHECKS = {
 
 CHECKS["C01"] = dict(engine="E2-stateright + E3-bounded-exhaustive",
    technique="explicit-state model checking of the real VM (stateright BFS over instruction sequences) plus bounded-exhaustive enumeration of boundary states and of all genomes up to a length bound under every step limit, differential against the PushRef reference semantics",
-   text="Every instruction of the full set (all enum-listed int/float/bool/exec instructions, print constants, PrintString, input variables, literal pushes) is applied by the real perform in every state of a boundary family (value alphabets with i64 extremes, NaN, infinities, signed zeros) x 10 capacity patterns, and in every state of a BFS over instruction sequences; every int/bool/float instruction on every ordered operand triple/pair of a wide value alphabet (33 ints, 31 floats: powers of two, roots of i64::MAX, the u32 exponent boundary, subnormals, the i64 boundary among floats); all Plushy genomes up to 4 (thorough 5) genes over an 18-gene alphabet are run by the real run_to_completion under every step limit 0..8 (12) and capacities {1,2,3,8}, which exposes every intermediate state of the real loop; plus all ordered instruction pairs. One step = one exec item taken (strict accounting). Result kind, four stacks, output and capacities are compared with the set of results the reference semantics admit.",
+   text="Every instruction of the full set (all enum-listed int/float/bool/exec instructions, print constants, PrintString, input variables, literal pushes) is applied by the real perform in every state of a boundary family (value alphabets with i64 extremes, NaN, infinities, signed zeros) x 10 capacity patterns, and in every state of a BFS over instruction sequences; every int/bool/float instruction on every ordered operand triple/pair of a wide value alphabet (33 ints, 31 floats: powers of two, roots of i64::MAX, the u32 exponent boundary, subnormals, the i64 boundary among floats); all Plushy genomes up to 4 (thorough 5) genes over an 18-gene alphabet are run by the real run_to_completion under every step limit 0..8 (12) and capacities {1,2,3,8}, which exposes every intermediate state of the real loop; plus all ordered instruction pairs. One step = one exec item taken (strict accounting). Result kind, four stacks, output and capacities are compared with the set of results the reference semantics admit. PrintChar<C> is performed directly for 18 characters of every UTF-8 length (the instruction enum only carries three ASCII instances) and PrintString with non-ASCII and long texts: the output grows by exactly the text's UTF-8 bytes, stacks untouched.",
    note="Trusted: PushRef (DESIGN Appendix A) incl. the tolerance sets of DESIGN section 3; value alphabets stand for all values away from the listed boundaries; stateright BFS.",
    design="4/C01")
 CHECKS["C02"] = dict(engine="E2-stateright + E3-bounded-exhaustive",
@@ -29,8 +29,8 @@ CHECKS["C03"] = dict(engine="E3-bounded-exhaustive",
    design="4/C03")
 CHECKS["C05"] = dict(engine="E3-bounded-exhaustive",
    technique="bounded-exhaustive enumeration of all gene sequences up to length N, differential against a non-recursive reference parser plus reference-free structural checks",
-   text="All 6^0+...+6^7 (thorough 6^10) gene sequences over {Close, literal, DupBlock, When, Unless, IfElse} are converted by the real From<Plushy>; the tree must equal PlushyRef's, its depth-first reading must equal the genome with closes removed, and every opener must be followed by exactly its number of blocks with no block elsewhere; never a panic. Plus a deep-nesting family: a prefix opening d blocks (5 prefix kinds) for every d in 8..=300 and around 512, 1024 (thorough: every d <= 514 and around 4096, 32768, 65536), followed by every suffix of length <= 2 (3) and by close-k-levels-and-continue for k in d-2..=d+2; plus long flat genomes: periodic patterns of period <= 3 with bounded nesting cut at lengths around 2^8, 2^9 (thorough ..2^16, 70000).",
-   note="Trusted: PlushyRef (explicit stack of open blocks); instruction identity is irrelevant beyond its number of opens.",
+   text="All 6^0+...+6^7 (thorough 6^10) gene sequences over {Close, literal, DupBlock, When, Unless, IfElse} are converted by the real From<Plushy>; the tree must equal PlushyRef's, its depth-first reading must equal the genome with closes removed, and every opener must be followed by exactly its number of blocks with no block elsewhere; never a panic. Plus a deep-nesting family: a prefix opening d blocks (5 prefix kinds) for every d in 8..=300 and around 512, 1024 (thorough: every d <= 514 and around 4096, 32768, 65536), followed by every suffix of length <= 2 (3) and by close-k-levels-and-continue for k in d-2..=d+2; plus long flat genomes: periodic patterns of period <= 3 with bounded nesting cut at lengths around 2^8, 2^9 (thorough ..2^16, 70000); plus a leaf pass: all genomes up to length 6 (8) with the leaf symbol standing, position by position, for every block-free instruction of the repository (each enum variant, print constants, input variables, literals) and for exec literals whose payload is block-opening code.",
+   note="Trusted: PlushyRef (explicit stack of open blocks); beyond the leaf pass, instruction identity is irrelevant beyond its number of opens.",
    design="4/C05")
 
 def mc(engine, technique, text, note, design):
@@ -46,7 +46,7 @@ CHECKS["C07"] = mc("E1-choice-tree",
   "Trusted: rand 0.9 samplers as characterised by the calibration run at start-up (exit 2 if it fails); ties are compared on value classes.", "4/C07")
 CHECKS["C08"] = mc("E1-choice-tree",
   "stateless model checking over the environment on the Rep(12!,K) alphabet (rand's shuffle consumes one number below 12! modulo s!), exact per-individual law against enumeration of all case orders",
-  "Every result matrix for n<=3 individuals x c<=3 cases over 3 values (thorough adds n=4, c=4, n=5 families), both polarities, configured case counts {c, c-1, 0}: the exact selection law must equal the fraction of case orders survived, split evenly among co-survivors; on every leaf the winner is not Pareto-dominated on the considered cases.",
+  "Every result matrix for n<=3 individuals x c<=3 cases over 3 values (thorough adds n=4, c=4, n=5 families), both polarities, configured case counts {c, c-1, 0}: the exact selection law must equal the fraction of case orders survived, split evenly among co-survivors; on every leaf the winner is not Pareto-dominated on the considered cases. Structured matrices (everybody tied except at marked cases, the deciding cases at every pair of positions, two and three individuals) with the exact law up to 8 (thorough 10) cases. Beyond that the case orders are not enumerable and no law is claimed: for every case count 9..70 and around 128, 256, 512, 1024 (thorough: every count up to 258, around 2048, 4097, 65536), on every stream with at most one non-default word (two up to 40 cases, thorough) the winner must be an individual that survives some ordering of the cases.",
   "Trusted: the calibrated shuffle characterisation; if the subject stops shuffling with rand the law is recomputed on the generic grid alphabet and only reported from an alphabet whose adequacy argument applies.", "4/C08")
 CHECKS["C09"] = mc("E3-fault-product on real rayon (tier A) + E4 rayon model (tier B when built)",
   "exhaustive fault/configuration enumeration on the real code with a schedule-independent oracle; schedules of real rayon are sampled by repetition (stated as a cap), exhaustive schedule exploration on an executable rayon model when mc_par builds",
@@ -66,7 +66,7 @@ CHECKS["C12"] = mc("E1-choice-tree",
   "Rates off the 1/12 lattice and sub-2^-24 rounding are outside the explored space.", "4/C12")
 CHECKS["C13"] = mc("E1-choice-tree + E3",
   "stateless model checking over the RNG with exact laws on marker selectors; exhaustive u32-boundary weight vectors for the builders",
-  "12 construction shapes of WeightedPair (left chains incl. Result-chained, right chains, balanced, mixed) and DynWeighted lists x every weight vector over 0..3 (thorough 0..4) within an execution budget: member law exactly w_i/sum, zero-weight members unreachable, all-zero => zero-weight error; the same ratios with the weights scaled to totals just below 2^32 (units 2^30, 357913941, 858993459; static shapes); weight vectors over {0,1,u32::MAX-1,u32::MAX} build iff the total fits in u32.",
+  "12 construction shapes of WeightedPair (left chains incl. Result-chained, right chains, balanced, mixed) and DynWeighted lists x every weight vector over 0..3 (thorough 0..4) within an execution budget: member law exactly w_i/sum, zero-weight members unreachable, all-zero => zero-weight error; the same ratios with the weights scaled to totals just below 2^32 (units 2^30, 357913941, 858993459; static shapes); DynWeighted lists also with every weight multiplied by odd units above 2^32 (4294967311, 10000000019, (2^60/total)|1), where rand's 64-bit sampler maps the grid cells to values exactly; weight vectors over {0,1,u32::MAX-1,u32::MAX} build iff the total fits in u32.",
   "Weight vectors whose lcm of node sums makes the tree exceed the budget are skipped and counted.", "4/C13")
 CHECKS["C14"] = mc("E3-bounded-exhaustive x fault plans",
   "bounded-exhaustive enumeration of composition trees x fault plans (deviation bound 2) on the real combinators through the erased layer, differential against the CompRef interpreter",
